@@ -195,4 +195,8 @@ func init() {
 		"	out := make([]K, len(src))\n	copy(out, src)\n	return out\n}", "	return src\n}", "C17.R7.alias")
 	mut("C07", "the acknowledged commit end is the smallest leaseholder end", "core/pkg/distribution/framer/writer/synchronizer.go",
 		"res.End > s.cycle.res.End", "res.End < s.cycle.res.End", "C07.R2.sync")
+
+	// ---------------- C07.R6
+	mut("C07", "the free writer stays silent for frames without free channels", "core/pkg/distribution/framer/writer/free.go",
+		"		); err != nil || !w.sync {\n			return\n		}", "		); err != nil || !w.sync || req.Frame.Empty() {\n			return\n		}", "C07.R6.ack")
 }
